@@ -146,8 +146,10 @@ func winInput(N int) ([]float64, []complex128) {
 
 func genWindow(g *vlib.G) {
 	maxN := vlib.Pick(g, 64, 128)
+	// every N up to maxN, then sampled long lengths up to 10^4
+	Ns := append(vlib.Ints(1, maxN), 1000, 1024, 1025, 4096, 4097, 9973, 10000)
 	for _, w := range windows() {
-		for N := 1; N <= maxN; N++ {
+		for _, N := range Ns {
 			w, N := w, N
 			g.Case(fmt.Sprintf("%s N=%d", w.name, N), func(t *vlib.T) { runWindow(t, w, N) })
 		}
